@@ -34,6 +34,7 @@ CONTENT_CODES = {"CONTENT_EXPECTED_EMPTY", "CONTENT_EXPECTED_ENUM", "CONTENT_EXP
 
 
 _desc = {}
+_kept = {}
 
 
 def desc(rn):
@@ -121,6 +122,36 @@ def check_case(rn, content, word, v, label=""):
         raise Violation(f"collecting-{'accepts-invalid' if acc_cc else 'rejects-valid'}:{kind}",
                         f"content {content!r} ({label}) must be {'accepted' if want else 'rejected'}; collecting: "
                         f"{[e[0].name for e in cc[1]] if cc[1] else 'no errors'}", case)
+    # one Rule object kept by the caller and used for node after node (as the repository's own harness does)
+    r = _kept.get(rn)
+    if r is None:
+        r = _kept[rn] = R.Rule(rn)
+    for mode in (0, 1):
+        Node.store.clear()
+        n = build.make_node(rn, word=word, content=content)
+        errs = [] if mode else None
+        try:
+            r.validate_rule(n, errs)
+            acc = not errs
+        except build.MetapypeRuleError:
+            acc = False
+        except Exception as e:  # noqa
+            raise Violation("kept-rule-object:foreign-exception:" + type(e).__name__, f"{type(e).__name__}: {str(e)[:150]}", dict(case, kept=True))
+        if acc != want:
+            raise Violation(f"kept-rule-object:{'accepts-invalid' if acc else 'rejects-valid'}:{kind}",
+                            f"content {content!r} ({label}) must be {'accepted' if want else 'rejected'} also by a Rule object "
+                            f"that has validated other nodes before ({'collecting' if mode else 'fail-fast'})", dict(case, kept=True))
+    # the same node as an inner node of a valid host tree, validated with validate.tree from the host's root
+    inner = build.inner_outcome(lambda: build.make_node(rn, word=word, content=content))
+    if inner is not None:
+        iff, icc = inner
+        icase = dict(case, inner=True)
+        if iff[0] == "EXC" or icc[0] == "EXC":
+            raise Violation("inner-node:foreign-exception", f"validate.tree from an ancestor: {iff if iff[0] == 'EXC' else icc}", icase)
+        if (iff[0] == "ok") != want or (icc[0] == "ok") != want:
+            raise Violation(f"inner-node:{'accepts-invalid' if want is False else 'rejects-valid'}:{kind}",
+                            f"content {content!r} ({label}) must be {'accepted' if want else 'rejected'} also when the node is "
+                            f"validated from an ancestor; fail-fast {iff[0]}, collecting {icc[0]}", icase)
 
 
 def check_content_next_to_invalid_child(rn, content):
